@@ -3,8 +3,6 @@ package props
 import (
 	"encoding/json"
 	"fmt"
-	"os"
-	"os/exec"
 	"sort"
 	"strings"
 	"unsafe"
@@ -532,7 +530,7 @@ func C13(c *run.Check) {
 	if completed < maxDepth {
 		c.Exhaustive = false
 	}
-	c.Rule = fmt.Sprintf("explicit-state BFS over call histories on 2 documents: state = (contents, length and capacity of the two caller-held node-set slots); %d operations per state (Exec of %d menu expressions incl. unions of caller variables, reverse axes, filters, from 3 context nodes (root, element, attribute), optionally keeping the result - possibly re-sliced to one element with spare capacity - in a slot; Unmarshal into slice and struct; BuildExpr replacing a compiled object); every transition = replay of the shortest history on fresh real objects + 1 call; after the call deep fingerprints (unexported fields, spare capacity, cyclic pointers) of the document tree, both slots' full-capacity views, all compiled expressions and the caller's binding maps must be unchanged (package-level variables of the library, reached through a generated build overlay, are fingerprinted too and reported, but a change there is not a violation by itself), the result must equal the result of the same call with the same argument values in every other history, and a reused compiled expression must agree with a freshly built one; plus, for every expression of the C08 AST universe, every ambiguous alternative list of the built parse forest rotated so that each alternative comes first once (covering every order the parser's map iteration can produce, one list at a time): same results required; plus build histories: for every ordered pair of %d near-duplicate expression texts (differing only in white space inside/outside literals, quote style, letter case, numeral spelling, abbreviation) a fresh process builds and executes the first, then the second, whose outcome must equal its outcome in a process where nothing ran before", len(ops), len(c13Menu), len(c13NearDup))
+	c.Rule = fmt.Sprintf("explicit-state BFS over call histories on 2 documents: state = (contents, length and capacity of the two caller-held node-set slots); %d operations per state (Exec of %d menu expressions incl. unions of caller variables, reverse axes, filters, from 3 context nodes (root, element, attribute), optionally keeping the result - possibly re-sliced to one element with spare capacity - in a slot; Unmarshal into slice and struct; BuildExpr replacing a compiled object); every transition = replay of the shortest history on fresh real objects + 1 call; after the call deep fingerprints (unexported fields, spare capacity, cyclic pointers) of the document tree, both slots' full-capacity views, all compiled expressions and the caller's binding maps must be unchanged (package-level variables of the library, reached through a generated build overlay, are fingerprinted too and reported, but a change there is not a violation by itself), the result must equal the result of the same call with the same argument values in every other history, and a reused compiled expression must agree with a freshly built one; plus, for every expression of the C08 AST universe, every ambiguous alternative list of the built parse forest rotated so that each alternative comes first once (covering every order the parser's map iteration can produce, one list at a time): same results required; plus process histories: for every ordered pair of %d calls (32 near-duplicate expression texts differing only in white space inside/outside literals, quote style, letter case, numeral spelling, abbreviation; 8 texts from 3 context nodes of 2 documents) a fresh process builds and executes the first, then the second, whose outcome must equal its outcome in a process where nothing ran before", len(ops), len(c13Menu), len(c13Calls()))
 	c.Assume("fingerprints are computed by reflection over the real objects (harness/snap); parser-order exploration permutes one alternative list at a time (<=1 deviation from the built order)")
 }
 
@@ -540,12 +538,14 @@ func init() {
 	Registry["C13"] = Prop{"model_checking", C13}
 	replayers["C13"] = func(raw json.RawMessage) string {
 		var bh struct {
-			Kind, First, Then, Alone string
+			Kind  string
+			First c13Call
+			Then  c13Call
 		}
 		json.Unmarshal(raw, &bh)
 		if bh.Kind == "build-history" {
-			idx := func(t string) int {
-				for i, x := range c13NearDup {
+			idx := func(t c13Call) int {
+				for i, x := range c13Calls() {
 					if x == t {
 						return i
 					}
@@ -554,16 +554,12 @@ func init() {
 			}
 			i, j := idx(bh.First), idx(bh.Then)
 			if i < 0 || j < 0 {
-				return "the expression texts of this replay are no longer in the universe"
+				return "the calls of this replay are no longer in the universe"
 			}
-			run1 := func(a ...string) string {
-				o, _ := exec.Command(os.Args[0], append([]string{"c13-build-history"}, a...)...).CombinedOutput()
-				return strings.TrimSpace(string(o))
-			}
-			alone, after := run1(fmt.Sprint(j)), run1(fmt.Sprint(i), fmt.Sprint(j))
-			fmt.Printf("   %q alone: %s\n   after %q: %s\n", bh.Then, alone, bh.First, after)
+			alone, after := c13RunHistory(j), c13RunHistory(i, j)
+			fmt.Printf("   %s alone: %s\n   after %s: %s\n", bh.Then, alone, bh.First, after)
 			if alone != after {
-				return "the outcome depends on what was built before in the same process"
+				return "the outcome depends on what was built and executed before in the same process"
 			}
 			return ""
 		}
